@@ -222,6 +222,12 @@ def _dist(ctx, desc):
                                  {"max_err": float((torch.cumsum(pmf, 0) - cdf).abs().max())})
         if not close(lcdf, torch.log(cdf), rt=1e-6 if f64 else 1e-3, at=1e-6 if f64 else 1e-3):
             return ctx.violation("dist.Poisson.logcdf_ne_log_cdf", "logcdf != log(cdf)", desc)
+        # documented form: the regularised gamma function at floor(k + 1) - a step function of a real-valued k
+        for fr in (0.25, 0.5, 0.999):
+            stepc = _call(ctx, desc, "cdf", D.cdf, k + fr, r)
+            ctx.count("poisson_cdf_between_integers")
+            if stepc is None or not close(stepc.to(torch.float64), cdf, rt=0, at=1e-9 if f64 else 1e-5):
+                return ctx.violation("dist.Poisson.cdf_not_a_step_function", f"cdf(k + {fr}) differs from cdf(k)", desc)
         m = float((k.double() * pmf).sum())
         v = float(((k.double() - m) ** 2 * pmf).sum())
         if not close(m, float(D.mean(r)), rt=1e-5 if f64 else 5e-3, at=1e-6 if f64 else 5e-3):
